@@ -75,6 +75,7 @@ let mk_oracles (g1 : bool) : oracles =
     repr = (fun a -> zr_repr (z_of_car a));
     unrepr = (fun b -> match zr_unrepr b with None -> None | Some v -> Some (car_of_z v));
     of_u64 = (fun x -> car_of_z (zr_of_u64 x));
+    sdec = (fun b -> match zr_sdec b with None -> None | Some v -> Some (car_of_z v));
     xof = (fun s l -> bytes_of_hex (ask (Printf.sprintf "xof %s %d" (hex_or_dash s) (int_of_nat l))));
     sha = (fun s -> bytes_of_hex (ask ("sha " ^ hex_or_dash s)));
     fs = (fun p items c ->
